@@ -26,6 +26,7 @@ for m in sorted(glob.glob(os.path.join(outdir, "m*"))):
     demo = meta.get("demo_cmd", "")
     import re
     demo = re.sub(r"\s*;\s*rm\s+(-r?f?\s+)?\S+\s*$", "", demo)   # keep the test's exit status (git clean removes the files)
+    demo = re.sub(r"\s+\(env [^)]*\)\s*$", "", demo)         # a trailing explanatory parenthesis is not part of the command
     rc0, out0 = sh(demo, cwd=wt)
     res["demo_without_patch_rc"] = rc0
     clean()
